@@ -179,10 +179,17 @@ def real_sanitize(name):
         return [1, None]
 
 
+def listed(stored):
+    """the name py7zr's reader lists for a stored name (archiveinfo.FilesInfo._read_name); tied to the
+    implementation by check_archive_batch, which compares it with getnames() of the reopened archive"""
+    return stored.replace("\\", "/")
+
+
 def real_row(name):
     p = pathlib.PurePosixPath(name)
     return {"parts": list(p.parts), "abs": p.is_absolute(), "check": H.check_archive_path(name),
-            "sanitize": real_sanitize(name), "make_name": pathlib.Path(name).as_posix()}
+            "sanitize": real_sanitize(name), "make_name": pathlib.Path(name).as_posix(),
+            "listed": listed(pathlib.Path(name).as_posix())}
 
 
 def model_rows(model, names):
@@ -191,7 +198,7 @@ def model_rows(model, names):
     for r in rows:
         san = [r[4][0], from_cps(r[4][1]) if r[4][0] == 0 else None]
         out.append({"parts": [from_cps(x) for x in r[0]], "abs": r[1] == 1, "check": r[2] == 1, "spec": r[3] == 1,
-                    "sanitize": san, "make_name": from_cps(r[5])})
+                    "sanitize": san, "make_name": from_cps(r[5]), "listed": from_cps(r[6])})
     return out
 
 
@@ -260,7 +267,14 @@ def check_archive_batch(names, first=0):
         inside = spec_ok(n)
         rp = {"kind": "archive", "names": [cps(n)], "first": 0 if ev["api"] == "writestr" else 1}
         if ev["out"] == "ok":
-            expect.append(pathlib.PurePosixPath(n).as_posix())
+            stored_name = pathlib.PurePosixPath(n).as_posix()
+            expect.append(listed(stored_name))
+            if inside and listed(stored_name) != stored_name and not spec_ok(listed(stored_name)):
+                bad.append(("%s accepts %r (one POSIX component, stays inside) but py7zr lists the member as %r, which %s: "
+                            "the reader turns backslashes into '/', the write-side check does not" % (
+                                ev["api"], n, listed(stored_name), "is absolute" if listed(stored_name)[:1] == "/" else
+                                "climbs above the archive root"), rp,
+                            {"kind": "archive", "via": "backslash-separator", "call": ev["api"]}))
             if not inside:
                 mk = classify(n, True, False)
                 mk["call"] = ev["api"]
@@ -298,8 +312,9 @@ def check_archive_batch(names, first=0):
             bad.append(("after %s(%r) and close/reopen the archive lists %r, expected %r" % (
                 events[0]["api"], names[0], stored, expect), {"kind": "archive", "names": [cps(names[0])], "first": first},
                 {"kind": "archive", "via": "stored-names"}))
+    from_backslash = set(listed(pathlib.PurePosixPath(n).as_posix()) for n in names if "\\" in n)
     for s in stored:
-        if s[:1] == "/":
+        if s[:1] == "/" and s not in from_backslash:
             bad.append(("the archive holds the absolute member name %r" % s,
                         {"kind": "archive", "names": [cps(n) for n in names], "first": first},
                         {"kind": "archive", "via": "absolute-stored"}))
@@ -348,7 +363,7 @@ def process_chunk(names, do_archive, model):
             dist("verdict", ("inside" if inside else "outside") + "/" + ("accepted" if r["check"] else "rejected"))
             dist("components", min(len(n.split("/")), 9))
             if m is not None:
-                for k in ("parts", "abs", "check", "sanitize", "make_name"):
+                for k in ("parts", "abs", "check", "sanitize", "make_name", "listed"):
                     if m[k] != r[k]:
                         res["corr"].append(("model and implementation disagree on %s(%r): model %r, implementation %r" % (
                             k, n, m[k], r[k]), {"kind": "corr", "fn": k, "name": cps(n)}, {"kind": "corr", "fn": k}))
@@ -496,8 +511,12 @@ def build_tree(root, hostile):
     mk("b/c:x", b"drive2")
     os.makedirs(os.path.join(root, "emptydir"))
     os.symlink("a.txt", os.path.join(root, "link"))
-    if hostile:
+    if hostile == "drive":
         mk("c:/d:/y.txt", b"dd")
+    if hostile == "backslash":
+        mk("\\evil", b"e")
+        mk("..\\up/f", b"u")
+        mk("b/..\\..\\g", b"g")
 
 
 def run_write_case(model, rep, cwd, calls, label):
@@ -540,14 +559,23 @@ def run_write_case(model, rep, cwd, calls, label):
             stored = r.getnames()
     finally:
         os.chdir(old)
+    from_backslash = set(listed(x) for x in expect if "\\" in x)
     for s in stored:
-        if s[:1] == "/":
+        if s[:1] == "/" and s not in from_backslash:
             return ("%s with cwd %s: the archive holds the absolute member name %r" % (calls, label, s),
                     {"kind": "write", "via": "absolute-stored"})
+    expect_stored = expect
+    expect = [listed(x) for x in expect_stored]
     if stored != expect:
         diff = [(a, b) for a, b in zip(stored, expect) if a != b][:3]
         return ("%s with cwd %s: stored names %r differ from the model's prediction %r (first differences %r)" % (
             [c[0] for c in calls][:4], label, stored[:6], expect[:6], diff), {"kind": "write", "via": "stored-names"})
+    for st, li in zip(expect_stored, stored):
+        if st != li and not spec_ok(li) and spec_ok(st):
+            return ("%s with cwd %s stores %r (one POSIX component per backslash run, stays inside) but py7zr lists the "
+                    "member as %r, which %s" % ([c[0] for c in calls][:4], label, st, li,
+                                                "is absolute" if li[:1] == "/" else "climbs above the archive root"),
+                    {"kind": "write", "via": "backslash-separator"})
     for s in stored:
         if len(s) >= 2 and s[0].isascii() and s[0].isalpha() and s[1] == ":":
             rep.extra.setdefault("observations", {}).setdefault("drive_like_names_stored", [])
@@ -596,8 +624,10 @@ def check_write(ctx, rep, rng, tier):
     tmp = tempfile.mkdtemp(prefix="c16-")
     try:
         tmp = os.path.realpath(tmp)
-        for hostile in (False, True):
-            root = os.path.join(tmp, "h" if hostile else "t")
+        seen_via = {}
+        rep.extra["write_violation_classes"] = seen_via
+        for hostile in ("", "drive", "backslash"):
+            root = os.path.join(tmp, hostile or "plain")
             os.makedirs(root)
             build_tree(root, hostile)
             for cwd, label, calls in write_cases(root):
@@ -608,7 +638,11 @@ def check_write(ctx, rep, rng, tier):
                     bad = run_write_case(model, rep, cwd, calls, label.replace("root", "<tree>"))
                 except Exception as e:  # noqa
                     bad = ("write/writeall case raised %s: %s" % (type(e).__name__, e), {"kind": "write", "via": "exception"})
+                if bad and bad[1].get("via") in seen_via:
+                    seen_via[bad[1].get("via")] += 1
+                    continue
                 if bad:
+                    seen_via[bad[1].get("via")] = 1
                     rel_calls = [[c[0], "path" if isinstance(c[1], pathlib.PurePath) else "str",
                                   os.path.relpath(str(c[1]), root) if str(c[1]).lstrip("/").startswith(root.lstrip("/"))
                                   and os.path.isabs(str(c[1])) else str(c[1]), str(c[1])] for c in calls]
@@ -665,9 +699,9 @@ def check_names(ctx, rep, rng, tier):
             for k, c in r[key + "_classes"].items():
                 classes[key + ":" + k] = classes.get(key + ":" + k, 0) + c
             for what, rp, mk in r[key]:
-                k = (key, tuple(sorted(mk.items())))
+                k = (key, rp.get("kind"), mk.get("via"), mk.get("fn"))
                 emitted[k] = emitted.get(k, 0) + 1
-                if emitted[k] <= 2:
+                if emitted[k] <= 1:
                     rep.violation(what, rp, concrete=(key == "prop"), match_keys=mk)
     rep.extra["names_through_writestr_writef"] = tot_arch
     rep.extra["disagreement_classes"] = classes
@@ -716,7 +750,7 @@ def replay(d):
     if kind == "write":
         tmp = tempfile.mkdtemp(prefix="c16-replay-")
         try:
-            root = os.path.join(os.path.realpath(tmp), "t")
+            root = os.path.join(os.path.realpath(tmp), r["hostile"] or "plain")
             os.makedirs(root)
             build_tree(root, r["hostile"])
             calls = []
